@@ -803,14 +803,30 @@ func (x *c08run) flagsInfer() {
 			allKnown = allKnown && s.known[f.Name]
 			inplace = inplace || f.Name == "inplace"
 		}
-		scen := (i / len(subsets)) % 5
-		kind := []string{"unformatted", "formatted", "unparseable", "unformatted", "unformatted"}[scen]
+		// scenarios 5 and 6: the target / the training file is the root of an include tree; every member is judged against itself
+		scen := (i / len(subsets)) % 7
+		kind := []string{"unformatted", "formatted", "unparseable", "unformatted", "unformatted", "unformatted", "unformatted"}[scen]
 		sameFile := scen == 3
 		target := c08GenFile(r, kind)
 		if sameFile {
 			target = noInclude(r, kind)
 		}
 		training := noInclude(r, Pick(r, []string{"formatted", "unformatted"}))
+		var memberNames, memberTexts []string
+		if scen >= 5 {
+			tn, tt, _, _ := c08Tree(r)
+			if scen == 5 {
+				target = tt[0]
+			} else {
+				training = tt[0]
+			}
+			for k := 1; k < len(tn); k++ {
+				if tn[k] != "s.knut" {
+					memberNames, memberTexts = append(memberNames, tn[k]), append(memberTexts, tt[k])
+				}
+			}
+			c.Tag(fmt.Sprintf("%s/tree-of-%s/members%d", stream, []string{"target", "training"}[scen-5], len(memberNames)))
+		}
 		// an account that does not occur in the target: nothing is there to be replaced
 		account := "Expenses:TBD"
 		explicit := scen == 4 || r.Chance(1, 4) || strings.Contains(target, account)
@@ -826,6 +842,8 @@ func (x *c08run) flagsInfer() {
 		if sameFile {
 			fnames, texts = fnames[:1], texts[:1]
 		}
+		tf := fnames[len(fnames)-1]
+		fnames, texts = append(fnames, memberNames...), append(texts, memberTexts...)
 		dir := filepath.Join(c.WorkDir, fmt.Sprintf("c08-%s-%d", stream, i))
 		x.c08WriteFiles(dir, fnames, texts)
 		relative := r.Chance(1, 3)
@@ -836,7 +854,6 @@ func (x *c08run) flagsInfer() {
 			return filepath.Join(dir, f)
 		}
 		flagArgs := c08FlagArgs(r, chosen)
-		tf := fnames[len(fnames)-1]
 		if r.Bool() {
 			flagArgs = append(flagArgs, "-t", p(tf))
 		} else {
@@ -882,6 +899,26 @@ func (x *c08run) flagsInfer() {
 		if !sameFile {
 			if tb, err := os.ReadFile(filepath.Join(dir, "training.knut")); err != nil || string(tb) != training {
 				c.Compare(stream, i, "the training file is only read", in, "changed", "untouched")
+			}
+		}
+		for k, mn := range memberNames {
+			inK := map[string]any{}
+			for key, v := range in {
+				inK[key] = v
+			}
+			inK["files_on_disk"], inK["file_name"], inK["tree_of"] = fnames, mn, []string{"target", "training"}[scen-5]
+			delete(inK, "file_text")
+			if len(memberTexts[k]) < 600 {
+				inK["file_text"] = memberTexts[k]
+			}
+			mb, err := os.ReadFile(filepath.Join(dir, mn))
+			if err != nil {
+				c.Monitor(stream, i, "C08_file_survives("+label+")", inK, false, err.Error())
+				continue
+			}
+			x.c08FileJudge(stream, i, inK, filepath.Join(dir, mn), memberTexts[k], string(mb), label)
+			if scen == 6 || allKnown {
+				c.Compare(stream, i, "a file the target / the training file includes is only read", inK, Hex(string(mb)), Hex(memberTexts[k]))
 			}
 		}
 		if allKnown && ok && status == 0 {
